@@ -154,7 +154,14 @@ def runner(scn):
     out = run_impl(scn)
     scn["sched"] = {"kind": "replay", "seq": out["schedule"], "seed": scn.get("sched", {}).get("seed", 0)}
     lines = ["S N 0 0", "spec eq 0 0"]
-    impl = ["S ok", "ok" if not out["bad_edges"] else "rank-violation " + json.dumps(out["bad_edges"][:3])]
+    problems = []
+    if out["bad_edges"]:
+        problems.append("rank-violation " + json.dumps(out["bad_edges"][:3]))
+    if out.get("wait_violations"):
+        problems.append("wait-while-holding " + json.dumps(out["wait_violations"][:3]))
+    if out.get("left_holding"):
+        problems.append("finished-while-holding " + json.dumps(out["left_holding"][:3]))
+    impl = ["S ok", "ok" if not problems else "; ".join(problems)]
     return lines, impl, [out]
 
 
